@@ -405,7 +405,8 @@ def run_dyn_case(case, res):
 
 # ------------------------------------------------------------------------------------ registration changes between
 # two uses of the same key: the rule is evaluated against the registry as it is when the binding is made
-SEQ_KINDS = ['method_then_class', 'interactive_tighter_denylist', 'interactive_tighter_allowlist']
+SEQ_KINDS = ['method_then_class', 'interactive_tighter_denylist', 'interactive_tighter_allowlist',
+             'same_object_tighter_denylist', 'same_object_tighter_allowlist']
 
 
 def run_seq_case(case, res):
@@ -425,7 +426,7 @@ def run_seq_case(case, res):
     change = lambda: gin.register(Kq)  # noqa: E731
     still_ok = ('Kq.meth2', 'a')
   else:
-    lists = {'denylist': ['b']} if kind == 'interactive_tighter_denylist' else {'allowlist': ['a']}
+    lists = {'denylist': ['b']} if kind.endswith('tighter_denylist') else {'allowlist': ['a']}
     why = 'denylisted' if 'denylist' in lists else 'not_allowlisted'
     exec('def redef(a="da", b="db"):\n  return (a, b)\n', ns)  # pylint: disable=exec-used
     ns['redef'].__module__ = 'c11'
@@ -434,6 +435,10 @@ def run_seq_case(case, res):
     still_ok = ('redef', 'a')
 
     def change():
+      if kind.startswith('same_object'):
+        # the very same function registered again under the same name, now with a list
+        gin.external_configurable(ns['redef'], name='redef', module='c11', **lists)
+        return
       exec('def redef(a="da2", b="db2"):\n  return (a, b)\n', ns)  # pylint: disable=exec-used
       ns['redef'].__module__ = 'c11'
       with gin.config.interactive_mode():
